@@ -388,6 +388,10 @@ def parse_terminator(line):
     # call:  PLACE = func(args) -> [return: bbN, unwind ...]    (diverging: -> unwind continue)
     i = _find_top(s, ' = ')
     arrow = max(s.rfind(' -> ['), s.rfind(' -> unwind'))
+    if arrow < 0:
+        mm = re.search(r' -> bb\d+$', s)
+        if mm:
+            arrow = mm.start()   # diverging call with only a cleanup target
     if i >= 0 and arrow >= 0 and s[arrow - 1] == ')':
         dest = parse_place(s[:i])
         callpart = s[i + 3:arrow]
